@@ -3,15 +3,52 @@
    getSessionIDFromCookie). *)
 From AS Require Import Base.Str.
 
-(* strings.TrimSpace restricted to ASCII input: \t \n \v \f \r and space *)
+(* strings.TrimSpace: Unicode White_Space, decoded from UTF-8 at both ends (an invalid byte is not a space):
+   ASCII \t \n \v \f \r and space; U+0085, U+00A0 (two bytes); U+1680, U+2000..U+200A, U+2028, U+2029, U+202F,
+   U+205F, U+3000 (three bytes) *)
 Definition is_space (a : ascii) : bool :=
   let n := nat_of_ascii a in ((9 <=? n) && (n <=? 13))%nat || Nat.eqb n 32.
+Definition space2 (a b : ascii) : bool :=
+  Nat.eqb (nat_of_ascii a) 194 && (Nat.eqb (nat_of_ascii b) 133 || Nat.eqb (nat_of_ascii b) 160).
+Definition space3 (a b c : ascii) : bool :=
+  let x := nat_of_ascii a in let y := nat_of_ascii b in let z := nat_of_ascii c in
+  (Nat.eqb x 225 && Nat.eqb y 154 && Nat.eqb z 128) ||
+  (Nat.eqb x 226 && Nat.eqb y 128 && (((128 <=? z) && (z <=? 138))%nat || Nat.eqb z 168 || Nat.eqb z 169 || Nat.eqb z 175)) ||
+  (Nat.eqb x 226 && Nat.eqb y 129 && Nat.eqb z 159) ||
+  (Nat.eqb x 227 && Nat.eqb y 128 && Nat.eqb z 128).
+
 Fixpoint trim_left (s : string) : string :=
   match s with
-  | String a s' => if is_space a then trim_left s' else s
+  | String a s1 =>
+      if is_space a then trim_left s1
+      else match s1 with
+           | String b s2 =>
+               if space2 a b then trim_left s2
+               else match s2 with
+                    | String c s3 => if space3 a b c then trim_left s3 else s
+                    | EmptyString => s
+                    end
+           | EmptyString => s
+           end
   | EmptyString => EmptyString
   end.
-Definition trim_space (s : string) : string := string_rev (trim_left (string_rev (trim_left s))).
+(* the same from the right, on the reversed string (bytes of a rune come in reverse order) *)
+Fixpoint trim_left_rev (s : string) : string :=
+  match s with
+  | String a s1 =>
+      if is_space a then trim_left_rev s1
+      else match s1 with
+           | String b s2 =>
+               if space2 b a then trim_left_rev s2
+               else match s2 with
+                    | String c s3 => if space3 c b a then trim_left_rev s3 else s
+                    | EmptyString => s
+                    end
+           | EmptyString => s
+           end
+  | EmptyString => EmptyString
+  end.
+Definition trim_space (s : string) : string := string_rev (trim_left_rev (string_rev (trim_left s))).
 
 (* one piece of the Cookie header: kept only if splitting on '=' gives exactly two parts *)
 Definition cookie_piece (c : string) : option (string * string) :=
